@@ -9,7 +9,7 @@ from . import ast as A
 
 VERIF = A.VERIF
 KNOWN = os.path.join(VERIF, "known_findings.json")
-EVID = os.path.join(VERIF, "evidence")
+EVID = os.environ.get("DM_EVIDENCE_DIR") or os.path.join(VERIF, "evidence")
 
 
 class Report:
